@@ -569,6 +569,8 @@ def c11(proj, rep, tier):
     rep.floor('M3(g) tolerance obligation of measure_quantum_vector', n, 1)
     n = round3b.q8_un1_d4b_chk1(proj, rep, {'D4B'})
     rep.floor('D4B arguments of the measurement call in MeasureGate.forward', n, 1)
+    n = round3b.gi1(proj, rep)
+    rep.floor('GI1 per-position gate/index entries in tables built over enumerate(gate_index_list)', n, 6)
     n = round3b.tr1(proj, rep, ['numqi.sim'] if tier == 'quick' else None)
     rep.floor('TR1 functions with an int-capable parameter (simulator)', n, 10)
     n = kdefects.pu2(proj, rep, ['numqi.sim.circuit.Circuit'])
